@@ -28,6 +28,7 @@ type script struct {
 	failAt int
 	log    []string
 	posts  []string // request bodies sent to the symbol service
+	narrow bool     // answer with the same few functions for every binary
 }
 
 func (o *script) step(what string) bool {
@@ -79,6 +80,11 @@ func (f *scriptFile) SourceLine(a uint64) ([]plugin.Frame, error) {
 	}
 	var fr []plugin.Frame
 	for i, n := 0, 1+f.o.r.Intn(3); i < n; i++ {
+		if f.o.narrow {
+			// a library mapped twice / a merged multi-process profile: the same few functions everywhere
+			fr = append(fr, plugin.Frame{Func: []string{"plain", "_Z3fooi"}[f.o.r.Intn(2)], File: "a.c", Line: f.o.r.Intn(3)})
+			continue
+		}
 		fr = append(fr, plugin.Frame{Func: frameNames[f.o.r.Intn(len(frameNames))], File: []string{"", "a.c"}[f.o.r.Intn(2)], Line: f.o.r.Intn(3), Column: f.o.r.Intn(2), StartLine: f.o.r.Intn(2)})
 	}
 	return fr, nil
@@ -265,13 +271,17 @@ func oneRun(seed int64, mode string, failAt int) runOut {
 			linesBefore[l.ID] = fmt.Sprint(l.Line)
 		}
 	}
+	hadLines := map[uint64]int{}
+	for _, l := range p.Location {
+		hadLines[l.ID] = len(l.Line)
+	}
 	namesBefore := map[*profile.Function]string{}
 	sysBefore := map[*profile.Function]string{}
 	for _, f := range p.Function {
 		namesBefore[f] = f.Name
 		sysBefore[f] = f.SystemName
 	}
-	sc := &script{r: rand.New(rand.NewSource(seed ^ 0x5bd1e995)), failAt: failAt}
+	sc := &script{r: rand.New(rand.NewSource(seed ^ 0x5bd1e995)), failAt: failAt, narrow: seed%3 == 0}
 	sources := plugin.MappingSources{}
 	for _, m := range p.Mapping {
 		src := struct {
@@ -356,6 +366,28 @@ func oneRun(seed int64, mode string, failAt int) runOut {
 					break
 				}
 			}
+		}
+		// symbolization attaches information: whatever the sources answer (an empty answer included),
+		// with or without force, a location that had line information does not end up without any;
+		// and a mapping whose locations were given function names in this run says so in its flag
+		for _, l := range p.Location {
+			if hadLines[l.ID] > 0 && len(l.Line) == 0 {
+				out.msg = fmt.Sprintf("%s: location %d (address %#x) had %d line records before symbolization and has none afterwards", ctx, l.ID, l.Address, hadLines[l.ID])
+				break
+			}
+			if m := l.Mapping; m != nil && hadLines[l.ID] == 0 && len(l.Line) > 0 && !m.HasFunctions {
+				named := false
+				for _, ln := range l.Line {
+					named = named || (ln.Function != nil && ln.Function.Name != "")
+				}
+				if named {
+					out.msg = fmt.Sprintf("%s: location %d of mapping %d was given function names by this run, but the mapping's has_functions flag is still unset", ctx, l.ID, m.ID)
+					break
+				}
+			}
+		}
+		if out.msg != "" {
+			break
 		}
 		if !force {
 			// information that is already there is not rewritten: a function that has a display name
